@@ -89,7 +89,8 @@ type NilAnalysis struct {
 	// numeric side (numfacts*.go)
 	cur       ssa.Instruction // instruction currently being proved (context for conditional contracts)
 	curFn     *ssa.Function
-	curCase   *phiCase // set while a site is proved by cases on a phi
+	curCase   *phiCase   // set while a site is proved by cases on a phi
+	curCases  []*phiCase // further simultaneous cases (a second merged operand)
 	reSub     map[string]int
 	gLen      map[string]int64
 	gArr      map[string][3]int64
